@@ -63,9 +63,9 @@ theorem C04_equidistribution_suffices (w : List Nat) (i : Nat) (hs : List Nat) (
   exact hequi lo hi' hle
 
 /-- every byte of the salt enters the hash, salt first: two salts give different MD5 inputs -/
-theorem C04_whole_key_hashed (s1 s2 : String) (names : List String) (env : Env) (k1 k2 : String)
-    (h1 : keyOf s1 names env = .ok k1) (h2 : keyOf s2 names env = .ok k2) (hne : s1 ≠ s2) : k1 ≠ k2 :=
-  fun hk => hne (C09_key_varies_with_salt s1 s2 names env k1 k2 h1 h2 hk)
+theorem C04_whole_key_hashed (pr : Nat → Bool) (s1 s2 : String) (names : List String) (env : Env) (k1 k2 : String)
+    (h1 : keyOf pr s1 names env = .ok k1) (h2 : keyOf pr s2 names env = .ok k2) (hne : s1 ≠ s2) : k1 ≠ k2 :=
+  fun hk => hne (C09_key_varies_with_salt pr s1 s2 names env k1 k2 h1 h2 hk)
 
 example : groupCount [1, 1] 0 [0, 2 ^ 31, 2 ^ 31 - 1, 5] = 3 := by decide
 
